@@ -236,7 +236,7 @@ def check_case(case, rec=None):
     return None
 
 
-N = {"quick": 400, "thorough": 8000}
+N = {"quick": 800, "thorough": 8000}
 
 
 def shard_plan(tier):
